@@ -188,6 +188,20 @@ def bounded(pb, interp, rng, tier):
                 fail("combined-graph.values", name, f"max abs diff {np.max(np.abs(got - want), initial=0.0):.2e}")
         except Exception as e:
             fail("combined-graph.raises", name, f"{type(e).__name__}: {str(e)[:150]}")
+    # lazily built per-channel chirps must stay distinct even when the channel frequencies differ
+    # only in the 9th significant digit (task names derived from a lossy token would collide)
+    ev += 1
+    distinct.add(("chirp", "close-channels"))
+    try:
+        xz = np.zeros((6, 2), complex)
+        kwz = dict(sample_rate=3 * u.Hz, center_freq=1.4 * u.GHz, freq_align="top")
+        cn = pb.DM(0.3).chirp_from_signal(pb.BasebandSignal(xz, **kwz), ref_freq=500 * u.MHz)
+        cd = pb.DM(0.3).chirp_from_signal(pb.BasebandSignal(da.from_array(xz, chunks=(-1, 1)), **kwz), ref_freq=500 * u.MHz)
+        if not np.allclose(np.asarray(cd.compute(scheduler="synchronous")), np.asarray(cn), rtol=0, atol=1e-5):
+            fail("chirp_from_signal.close-channel-frequencies", "2 channels 3 Hz apart at 1.4 GHz, DM 0.3, ref 500 MHz",
+                 "the Dask chirp of one channel is the chirp of the other")
+    except Exception as e:
+        fail("chirp_from_signal.close-channel-frequencies.raises", "", f"{type(e).__name__}: {str(e)[:150]}")
     # the same function applied to differently shaped Dask signals one after the other (shared defaults must not leak)
     ev += 1
     try:
